@@ -400,11 +400,13 @@ pub fn g_value(v: &V) -> G {
 
 /// Writes the cases twice: `<dir>/<prefix>_all.ml` (OCaml, every case, for the extracted
 /// model) and `<dir>/<prefix>_k_<i>.v` (Gallina, the first `kernel_n` cases, in shards, for
-/// in-kernel evaluation by vm_compute).  `checker` is the name of the model function
+/// in-kernel evaluation by vm_compute).  `ocaml_model` names the extraction unit
+/// (`Extract/Extract<Name>.v` -> `model_<name>.ml`).  `checker` is the name of the model function
 /// `N -> list case -> list (N * _) * N` that returns the disagreeing indices.
 pub fn write_cases(
     dir: &str,
     prefix: &str,
+    ocaml_model: &str,
     coq_module: &str,
     elem_type: &str,
     checker: &str,
@@ -425,7 +427,15 @@ pub fn write_cases(
     while base < cases.len() && kernel_n != usize::MAX - 1 && !prefix.ends_with('k') {
         let upto = (base + per_ml).min(cases.len());
         let mut s = String::new();
-        s.push_str("open Prelude\nopen Biscuit_model\n");
+        let cap = {
+            let mut cs = ocaml_model.chars();
+            match cs.next() {
+                Some(f) => f.to_uppercase().collect::<String>() + cs.as_str(),
+                None => String::new(),
+            }
+        };
+        writeln!(s, "open Prelude_{}\nopen Model_{}", ocaml_model, ocaml_model).unwrap();
+        let _ = cap;
         let mut nchunks = 0;
         for (ci, ch) in cases[base..upto].chunks(chunk).enumerate() {
             writeln!(s, "let cases_{} () = [", ci).unwrap();
